@@ -67,6 +67,8 @@ pub struct Ctx {
     counter: u64,
     case_no: u64,
     stop_at: Option<u64>,
+    /// descriptions of the first cases of this worker (replay self-check)
+    first_cases: Vec<Value>,
     pub started: Instant,
 }
 
@@ -78,7 +80,7 @@ static CASE_NO: AtomicU64 = AtomicU64::new(0);
 impl Ctx {
     pub fn new(tier: Tier, shard: u64, nshards: u64, seed: u64) -> Self {
         let stop_at = std::env::var("VERIF_STOP_AT").ok().and_then(|s| s.parse().ok());
-        Ctx { tier, shard, nshards, seed, out: Out::default(), counter: 0, case_no: 0, stop_at, started: Instant::now() }
+        Ctx { tier, shard, nshards, seed, out: Out::default(), counter: 0, case_no: 0, stop_at, first_cases: vec![], started: Instant::now() }
     }
     /// Marks the start of one executed case. The description is only built when this worker
     /// was asked (after a stall) to name the case with this number.
@@ -91,6 +93,8 @@ impl Ctx {
             use std::io::Write;
             println!("HANGCASE {}", describe());
             let _ = std::io::stdout().flush();
+        } else if self.case_no <= 3 && self.shard == 0 {
+            self.first_cases.push(describe());
         }
     }
     #[inline]
@@ -277,6 +281,24 @@ fn worker(p: &dyn Property, tier: Tier, shard: u64, n: u64) -> ! {
     });
     let mut ctx = Ctx::new(tier, shard, n, seed_from_env());
     p.explore(&mut ctx);
+    // self-check of the replay path: the first cases of worker 0 held during the exploration, so
+    // re-executing their recorded descriptions alone must hold as well (this exercises the
+    // encode -> decode -> execute path that a reported violation relies on, on every run)
+    {
+        let cases = std::mem::take(&mut ctx.first_cases);
+        let only_findings = ctx.out.viol_counts.keys().all(|k| p.finding_classes().iter().any(|f| f == k));
+        for c in cases {
+            if !only_findings || ctx.out.viols.iter().any(|v| v.case == c) {
+                continue;
+            }
+            let r = std::panic::catch_unwind(std::panic::AssertUnwindSafe(|| p.replay(&c)));
+            match r {
+                Ok(Ok(())) => ctx.hit_n("replay_selfcheck_cases", 1),
+                Ok(Err(e)) => ctx.out.capped.push(format!("MACHINERY: replay self-check: a case that held during exploration fails when replayed: {c} :: {e}")),
+                Err(_) => ctx.out.capped.push(format!("MACHINERY: replay self-check: replaying {c} panicked")),
+            }
+        }
+    }
     let s = serde_json::to_string(&ctx.out).expect("serialise worker result");
     println!("RESULT {s}");
     std::process::exit(0);
